@@ -102,8 +102,19 @@ P.fn(FP + 'ifmmode.invoke', name='ifmmode.invoke', params=dict(self='ifmmode', t
      ensures=ONE + ['ghost("branch") == (0 if MATHMODE(self.ownerDocument.context) else 1)', 'len(result) == 0'],
      allocates=True, skip_frame=True, locals={'[]': 'list[Tok]'},
      calls={'self.ownerDocument.context.isMathMode': 'Ctx.isMathMode', 'tex.processIfContent': 'TeX.processIfContent/bool'})
+# \ifcase: exactly one selection, the selector being the number read (what an integer selector selects is TeX.processIfContent/select)
+P.ghost('selector', 'int')
+P.fn('TeX.processIfContent/int', params=dict(self='TeX', which='int'), returns='none',
+     ghost_sets={'selector': 'which', 'ncalls': 'ghost("ncalls") + 1'}, trusted=True,
+     notes='interface of processIfContent for integer selectors (case number; proved in TeX.processIfContent/select)')
+P.cls('ifcase', bases=['IfCommand'])
+P.fn(FP + 'ifcase.invoke', name='ifcase.invoke', params=dict(self='ifcase', tex='TeX'), returns='list[Tok]',
+     requires=['ghost("ncalls") == 0'],
+     ensures=ONE + ['ghost("selector") == ARG_B()', 'len(result) == 0'],
+     allocates=True, skip_frame=True, locals={'[]': 'list[Tok]'},
+     calls={'tex.processIfContent': 'TeX.processIfContent/int', 'tex.readNumber': 'TeX.readNumber'})
 P.unverified_surrounding("functional selection of processIfContent (which tokens are pushed back) against TeX's skipping machine: "
-                         "bounded native comparison (bounded/ifcontent); if / ifx token comparison (Token.__eq__ hook), ifcase / ifdefined / box tests: not under contract")
+                         "bounded native comparison (bounded/ifcontent); if / ifx token comparison (Token.__eq__ hook), ifdefined / box tests: not under contract")
 
 # ---------------------------------------------------------------------------------------------- which tokens are pushed back
 # TeX's skipping machine, stated over a ghost classification K of the stream tokens (0 other, 1 \if..., 2 \fi, 3 \else, 4 \or,
